@@ -1,0 +1,93 @@
+//! Read-only views of crate-private tree data for the external verification harness.
+//!
+//! Only compiled with the cargo feature `verif`; nothing in the crate itself uses this module.
+
+use java_string::JavaString;
+use crate::tree::annotation::Annotation;
+use crate::tree::attribute::Attribute;
+use crate::tree::class::ClassName;
+use crate::tree::field::FieldSignature;
+use crate::tree::method::code::{Label, LabelRange};
+use crate::tree::module::{Module, ModuleName, PackageName};
+use crate::tree::record::RecordComponent;
+use crate::tree::type_annotation::{TargetInfoField, TypeAnnotation, TypePath, TypePathKind};
+use crate::tree::version::Version;
+
+/// `(major, minor)`
+pub fn version_parts(version: Version) -> (u16, u16) {
+	(version.major, version.minor)
+}
+
+/// `(start inclusive, end exclusive)`
+pub fn label_range_parts(range: &LabelRange) -> (Label, Label) {
+	(range.start, range.end)
+}
+
+/// One `(type_path_kind, type_argument_index)` pair per step, numbered as in JVMS 4.7.20.2.
+pub fn type_path_steps(path: &TypePath) -> Vec<(u8, u8)> {
+	path.path.iter()
+		.map(|step| match step {
+			TypePathKind::ArrayDeeper => (0, 0),
+			TypePathKind::NestedDeeper => (1, 0),
+			TypePathKind::WildcardBound => (2, 0),
+			TypePathKind::TypeArgument { index } => (3, *index),
+		})
+		.collect()
+}
+
+pub struct ModuleView<'a> {
+	pub name: &'a ModuleName,
+	/// `(open, synthetic, mandated)`
+	pub flags: (bool, bool, bool),
+	pub version: Option<&'a JavaString>,
+	/// `(name, (transitive, static_phase, synthetic, mandated), version)`
+	pub requires: Vec<(&'a ModuleName, (bool, bool, bool, bool), Option<&'a JavaString>)>,
+	/// `(package, (synthetic, mandated), to)`
+	pub exports: Vec<(&'a PackageName, (bool, bool), &'a [ModuleName])>,
+	/// `(package, (synthetic, mandated), to)`
+	pub opens: Vec<(&'a PackageName, (bool, bool), &'a [ModuleName])>,
+	pub uses: &'a [ClassName],
+	/// `(service, with)`
+	pub provides: Vec<(&'a ClassName, &'a [ClassName])>,
+}
+
+pub fn module_view(module: &Module) -> ModuleView<'_> {
+	ModuleView {
+		name: &module.name,
+		flags: (module.flags.is_open, module.flags.is_synthetic, module.flags.is_mandated),
+		version: module.version.as_ref(),
+		requires: module.requires.iter()
+			.map(|r| (&r.name, (r.flags.is_transitive, r.flags.is_static_phase, r.flags.is_synthetic, r.flags.is_mandated), r.version.as_ref()))
+			.collect(),
+		exports: module.exports.iter()
+			.map(|e| (&e.name, (e.flags.is_synthetic, e.flags.is_mandated), e.exports_to.as_slice()))
+			.collect(),
+		opens: module.opens.iter()
+			.map(|o| (&o.name, (o.flags.is_synthetic, o.flags.is_mandated), o.opens_to.as_slice()))
+			.collect(),
+		uses: &module.uses,
+		provides: module.provides.iter()
+			.map(|p| (&p.name, p.provides_with.as_slice()))
+			.collect(),
+	}
+}
+
+pub struct RecordComponentView<'a> {
+	pub signature: Option<&'a FieldSignature>,
+	pub runtime_visible_annotations: &'a [Annotation],
+	pub runtime_invisible_annotations: &'a [Annotation],
+	pub runtime_visible_type_annotations: &'a [TypeAnnotation<TargetInfoField>],
+	pub runtime_invisible_type_annotations: &'a [TypeAnnotation<TargetInfoField>],
+	pub attributes: &'a [Attribute],
+}
+
+pub fn record_component_view(component: &RecordComponent) -> RecordComponentView<'_> {
+	RecordComponentView {
+		signature: component.signature.as_ref(),
+		runtime_visible_annotations: &component.runtime_visible_annotations,
+		runtime_invisible_annotations: &component.runtime_invisible_annotations,
+		runtime_visible_type_annotations: &component.runtime_visible_type_annotations,
+		runtime_invisible_type_annotations: &component.runtime_invisible_type_annotations,
+		attributes: &component.attributes,
+	}
+}
